@@ -41,8 +41,8 @@ TRUSTED = [
     "balance.go) and the park-and-release schedule controller of the `run … gate` cases",
     "stub API/keepstore servers inside the Go drivers (independent re-implementation of the collections list "
     "endpoint: generic filter evaluation, ordering, limit, count)",
-    "GetCurrentState's goroutine/channel protocol is covered by the fault-injection runs only (model: result is "
-    "an error iff some worker failed)",
+    "GetCurrentState's small-step model leaves the number of collections / mounts and every failure to the "
+    "environment; the trace acceptor is proved sound (C06_gcs_acceptor_sound), not complete",
 ]
 
 DRIVERS = {
